@@ -20,6 +20,7 @@ open AcmedVerif.Props.C14
 #print axioms lastSome_spec
 #print axioms env_dispatch
 #print axioms refs_checked
+#print axioms limits_checked
 #print axioms rejects_exactly
 #print axioms mustReject_iff
 #print axioms expand_total
